@@ -20,6 +20,9 @@ NOTES = {
     ("C16", "H"): "missed — a new `Iterator::nth` override whose result must equal n+1 calls of `next` (an inductive relation between two functions, not a shape of either; section 6)",
     ("C17", "H"): "own check silent (a new `nth` override, as C16-H); the division by zero it introduces is reported by C08",
     ("C17", "J"): "own check silent — tie bias in the phase arithmetic of the parallels (numeric, not claimed, section 6); C08 reports the new unchecked `+ 1` only incidentally",
+    ("C07", "M"): "missed — absolute instead of relative dot coordinates of the dotted rectangle border: float rounding half away from zero differs for negative coordinates (numeric, `Real` values are opaque to the degree domain; section 6)",
+    ("C16", "N"): "missed — `width * height == 0` as the emptiness test of rectangle::Points::new overflows only for areas of 2^32 pixels and more, outside the display-scale contracts of C08 (section 6)",
+    ("C17", "M"): "missed — `Line::perpendicular` scaled down for lines of 1024 px and more: the parallels count 2*|perpendicular| against a threshold computed from the unscaled line (a numeric relation between two functions, not claimed; section 6)",
     ("C18", "H"): "missed — a reduced scan area for arc points that is right for every sweep below 360 degrees (needs angle arithmetic on runtime values, section 6)",
 }
 rows = []
